@@ -144,3 +144,51 @@ func VerifC08Set() {
 		verifrt.Assert(status.Code(err) == want, "error-carries-the-recorded-failure-class")
 	}
 }
+
+// VerifC08SetEnded: the request context ends (client cancels / deadline) while the handler is still waiting: the store
+// closes the watch channel after the events delivered so far, none of which finishes the transaction. The handler
+// answers with success only if the stage it waits for was reached, otherwise with an error - never with neither.
+func VerifC08SetEnded() {
+	vNEvents = verifrt.Param("events") - 1
+	const (
+		PENDING   = int32(configapi.TransactionStatus_PENDING)
+		COMMITTED = int32(configapi.TransactionStatus_COMMITTED)
+		APPLIED   = int32(configapi.TransactionStatus_APPLIED)
+	)
+	for i := 0; i < vNEvents; i++ {
+		vStates[i] = verifrt.NondetInt32("state")
+		verifrt.Assume(vStates[i] >= PENDING && vStates[i] <= COMMITTED) // unfinished
+	}
+	for i := 0; i+1 < vNEvents; i++ {
+		verifrt.Assume(vStates[i+1] >= vStates[i])
+	}
+	vCloseAfter = true
+	sync := verifrt.NondetBool("sync")
+	st := &configapi.TransactionStrategy{}
+	if sync {
+		st.Synchronicity = configapi.TransactionStrategy_SYNCHRONOUS
+	}
+	stb, _ := proto.Marshal(st)
+	req := &gnmi.SetRequest{
+		Prefix: &gnmi.Path{Target: "t1"},
+		Update: []*gnmi.Update{{Path: &gnmi.Path{Elem: []*gnmi.PathElem{{Name: "a"}, {Name: "b"}}},
+			Val: &gnmi.TypedValue{Value: &gnmi.TypedValue_StringVal{StringVal: "v"}}}},
+		Extension: []*gnmi_ext.Extension{{Ext: &gnmi_ext.Extension_RegisteredExt{RegisteredExt: &gnmi_ext.RegisteredExtension{
+			Id: configapi.TransactionStrategyExtensionID, Msg: stb}}}},
+	}
+	srv := vServer()
+	resp, err := srv.Set(&vEndedCtx{}, req)
+	verifrt.Cover("returned")
+	reachedCommitted := false
+	for i := 0; i < vNEvents; i++ {
+		reachedCommitted = reachedCommitted || vStates[i] == COMMITTED
+	}
+	verifrt.Assert(err != nil || resp != nil, "answered-with-a-response-or-an-error")
+	if err == nil {
+		verifrt.Cover("success")
+		verifrt.Assert(!sync && reachedCommitted, "success-only-if-the-awaited-stage-was-reached")
+	} else {
+		verifrt.Cover("error")
+	}
+	_ = APPLIED
+}
